@@ -1177,6 +1177,7 @@ def build(template_text: str, repo: str, unit: str) -> Built:
     report = []
     clauses_out = []
     files = {}
+    auto_consts = set()
 
     def emit(s, meta=None):
         for ln in s.split("\n"):
@@ -1209,6 +1210,24 @@ def build(template_text: str, repo: str, unit: str) -> Built:
                     continue
                 raise
             text, meta = _build_fn(sf, item, impl, ex, props, rep, unit, a)
+            # R15: a constant of the same source file that the function refers to and the unit does not define is
+            # extracted automatically (a refactoring that names a literal must not put the function out of reach)
+            for cname in sorted(set(re.findall(r"\b[A-Z][A-Z0-9_]{2,}\b", text))):
+                if re.search(r"\b(const|static|fn|struct|enum|type)\s+" + re.escape(cname) + r"\b", template_text) or cname in auto_consts:
+                    continue
+                if re.search(r"\b" + re.escape(cname) + r"\b", "\n".join(out_lines)) and re.search(r"\b(const|static)\s+" + re.escape(cname) + r"\b", "\n".join(out_lines)):
+                    continue
+                try:
+                    citem, _ = sf.find(kind="const", name=cname)
+                except AnchorLost:
+                    continue
+                ctoks = rw_vis(rw_strip_comments(list(sf.toks[citem.start:citem.end]), rep), rep)
+                fs = next((t for t in ctoks if t.kind not in (WS, COMMENT)), None)
+                ctxt = ("pub " if fs is not None and fs.kind == IDENT and fs.text == "const" else "") + text_of(ctoks)
+                emit(f"// ---- auto-extracted (R15) {rel}:{sf.line_of(citem.start)} :: const {cname} ----")
+                emit(ctxt)
+                auto_consts.add(cname)
+                rep.append(("R15", f"const {cname} of {rel} extracted automatically"))
             first = len(out_lines) + 1
             # emit line by line, picking up label markers
             for ln in text.split("\n"):
